@@ -6,7 +6,8 @@ ASSUMPTIONS = [
     'base models: fixtures/Simple_Model.xtuml (5 classes; linked reflexive association with phrases, subtype association, two simple associations; UDT and enumeration types, one component) and fixtures/interp_model.xtuml (3 classes, linked reflexive and simple association, a derived attribute, enumeration, no component), each with the ooaofooa globals',
     'metamorphic oracle: the component built from the edited model must equal the baseline signature transformed by the same edit (written from the property statement, independent of mk_class / mk_*_association)',
     'Mult / Cond are symbolic integers in 0..1, phrases symbolic strings of length <= 3; edit sites are case-split',
-    'one edit per run (edit scripts of length 1); class synthesis from abstract diagrams is not covered',
+    'one edit per run (edit scripts of length 1)',
+    'synthesised diagrams: absolute oracle = signature computed directly from the abstract class diagram (harness/c14_synth.py); only formalised simple associations are synthesised',
 ]
 
 
@@ -24,4 +25,8 @@ def conditions(tier, seed):
         for n, f, b, s, c in spec:
             out.append(Cond('%s_%s' % (fx, n), 'c14_comp.py', dict(edit=n, fixture=fx), func=f, timeout=t,
                             bound='%s: %s' % (fx, b), symbolic=s, case_split=c, realised=['model text (PLY, outside the tracer)']))
+    for sh in range(8):
+        out.append(Cond('synth_s%d' % sh, 'c14_synth.py', dict(shard=sh, nshards=8), timeout=t,
+                        bound='4 synthesised class diagrams (compound identifiers whose referential names sort differently from the identifying names, reflexive association with phrases, several core types, two identifiers) x 16 Mult/Cond combinations x 4 row orders (shard %d/8)' % sh,
+                        case_split=['ci (diagram, multiplicities, row order)'], realised=['model text'], twin=(sh == 0)))
     return out
